@@ -260,10 +260,31 @@ _ODD_NUMBERS = ["0", "1", "-1", "12", "-0", "0.0", "-0.0", "1e0", "1E0", "1e+0",
                 "9223372036854775807", "9223372036854775808", "-9223372036854775808", "-9223372036854775809", "1e22", "1e21", "0.1", "0.3",
                 "2.5E-5", "100000000000000000000", "1.0e0", "1.10", "3.0000", "0.10e-4", "7e-5", "7e-6", "1e-7"]
 
+_HARD_FLOATS = ["1.5e-300", "12345678901234567.0", "9007199254740993.0", "2.2250738585072011e-308", "0.1000000000000000055511151231257827",
+                "8.98846567431158e307", "4.9406564584124654e-324", "1.7976931348623157e308", "123456789012345678901234567890.0",
+                "0.000001234567890123456789", "7.205759403792793e16", "5e-324", "2.4703282292062328e-324"]
+
+def hard_float(rng):
+    """float tokens that need a correctly rounded reader: 16..25 significant digits, halfway cases between two doubles, large and
+    small exponents, subnormals. The value a JSON reader must hand on is the double nearest to the token (Python's float())."""
+    r = rng.random()
+    if r < 0.35:
+        return rng.choice(["", "-"]) + rng.choice(_HARD_FLOATS)
+    if r < 0.6:
+        # just above / at / below the midpoint of two adjacent doubles near 2^53..2^60
+        base = rng.randint(2**53, 2**60)
+        return "%s%d.0" % (rng.choice(["", "-"]), base | 1) if rng.random() < 0.5 else "%s%d.5" % (rng.choice(["", "-"]), base)
+    nd = rng.randint(16, 25)
+    digits = str(rng.randint(1, 9)) + "".join(rng.choice("0123456789") for _ in range(nd - 1))
+    e = rng.choice([rng.randint(-320, -280), rng.randint(-30, 30), rng.randint(270, 300)])
+    return "%s%s.%se%d" % (rng.choice(["", "-"]), digits[0], digits[1:], e)
+
 def odd_number(rng):
     """number tokens in spellings serde_json does not print itself (exponents, trailing zeros, -0, integers past u64 / i64): at most 17
     significant digits and exponents of small magnitude (plus a few fixed extreme ones), see serde_num"""
     r = rng.random()
+    if r < 0.15:
+        return hard_float(rng)
     if r < 0.6:
         return rng.choice(_ODD_NUMBERS)
     if r < 0.75:
@@ -318,6 +339,8 @@ def serde_num(tok):
     f = float(tok)
     if f != f or f in (float("inf"), float("-inf")):
         raise ValueError("out of range for serde_json: %r" % tok)
+    if f == 0.0 and any(c in "123456789" for c in (ip + (fp or ""))):
+        f = 0.0                               # underflow to zero keeps the token's sign
     r = repr(abs(f))                      # shortest round-trip digits: 'ddd.ddd' or 'd.ddde[+-]XX' or 'de[+-]XX'
     sign = "-" if (neg and f == 0.0) or f < 0 else ""
     mant, _, e = r.partition("e")
